@@ -21,6 +21,7 @@ import (
 	"github.com/XiaoMi/Gaea/mysql"
 	"github.com/XiaoMi/Gaea/parser/ast"
 	"github.com/XiaoMi/Gaea/parser/opcode"
+	types "github.com/XiaoMi/Gaea/parser/tidb-types"
 	driver "github.com/XiaoMi/Gaea/parser/tidb-types/parser_driver"
 	"github.com/XiaoMi/Gaea/proxy/router"
 	"github.com/XiaoMi/Gaea/util"
@@ -1127,6 +1128,28 @@ func getDatabaseFuncHint(f *ast.FuncCallExpr, v ast.ExprNode) (string, error) {
 	}
 }
 
+// getShardingCompareValue returns the value by which the rule places a literal that is compared
+// with the sharding column. routable is false when the rule cannot tell from the literal in which
+// sub tables the rows are that MySQL matches with it; the comparison is then routed to every sub
+// table, which never loses a row.
+//
+// Only integer and string literals are values a rule can place. Of a hexadecimal, bit or decimal
+// literal GetValueExprResult gives the restored SQL text (x'10', 1.50), which is not the value MySQL
+// compares the column with (16, 1.5): `k = 0x10` was routed to the table of the string "x'10'" and
+// skipped the row 16. A float literal or NULL made the rule panic or fail.
+func getShardingCompareValue(rule router.Rule, x *driver.ValueExpr) (v interface{}, routable bool, err error) {
+	switch x.Kind() {
+	case types.KindInt64, types.KindUint64, types.KindString, types.KindBytes:
+	default:
+		return nil, false, nil
+	}
+	v, err = util.GetValueExprResult(x)
+	if err != nil {
+		return nil, false, err
+	}
+	return v, true, nil
+}
+
 // 返回一个根据路由信息和路由值获取路由结果的函数
 // 左边为列名, 右边为参数
 func getFindTableIndexesFunc(op opcode.Op) func(rule router.Rule, columnName string, v interface{}) ([]int, error) {
@@ -1237,9 +1260,12 @@ func handleBinaryOperationExprCompareLeftColumnRightValue(p *TableAliasStmtInfo,
 	}
 
 	valueExpr := expr.R.(*driver.ValueExpr)
-	v, err := util.GetValueExprResult(valueExpr)
+	v, routable, err := getShardingCompareValue(rule, valueExpr)
 	if err != nil {
 		return false, nil, nil, fmt.Errorf("get ValueExpr value error: %v", err)
+	}
+	if !routable {
+		return true, rule.GetSubTableIndexes(), expr, nil
 	}
 
 	tableIndexes, err := findTableIndexes(rule, column.Name.Name.L, v)
@@ -1268,9 +1294,12 @@ func handleBinaryOperationExprCompareLeftValueRightColumn(p *TableAliasStmtInfo,
 	}
 
 	valueExpr := expr.L.(*driver.ValueExpr)
-	v, err := util.GetValueExprResult(valueExpr)
+	v, routable, err := getShardingCompareValue(rule, valueExpr)
 	if err != nil {
 		return false, nil, nil, fmt.Errorf("get ValueExpr value error: %v", err)
+	}
+	if !routable {
+		return true, rule.GetSubTableIndexes(), expr, nil
 	}
 
 	tableIndexes, err := findTableIndexes(rule, column.Name.Name.L, v)
